@@ -361,6 +361,9 @@ def run_check(spec, tier='quick', seed=0, jobs=None, keep=False, verbose=True):
             if time.time() - last_log > 30:
                 last_log = time.time()
                 log('[%s] ... %d task runs done, %d pending, paths=%d, %.0fs' % (pid, ndone, pending, agg['paths'], time.time() - t_start))
+                if os.environ.get('VERIF_PROGRESS_TOP'):
+                    top = sorted(per_task.items(), key=lambda kv: -kv[1]['wall'])[:6]
+                    log('[%s]     top: %s' % (pid, ', '.join('%s %.0fs/%dp' % (k, v['wall'], v['paths']) for k, v in top)))
             if not results:
                 time.sleep(0.02)
                 if deadline and time.time() > deadline:
